@@ -178,7 +178,7 @@ class Unit:
                     raise StopUnit()
                 return
             if tries >= MAX_REPLAY_MODELS:
-                if self.hunt(ctx, label, state):
+                if self.diversify(ctx, label, _as_expr(bad), state) or self.hunt(ctx, label, state):
                     return
                 so = state.get("sym_out")
                 if isinstance(so, Raised):
@@ -189,12 +189,31 @@ class Unit:
             block = z3.Or([c != _val(v, c) for (n, c), v in zip(ctx.inputs.items(), [values[n] for n in ctx.inputs])])
             r2, m = ctx._check(bad_e, block, *state.get("nice", []))
             if r2 != "sat":
-                if self.hunt(ctx, label, state):
+                if self.diversify(ctx, label, _as_expr(bad), state) or self.hunt(ctx, label, state):
                     return
                 state["unconfirmed"].append({"unit": self.name, "label": label, "values": jsonable(values),
                                              "detail": detail + " (no further model)", "tries": tries})
                 return
             ctx.checks.append((label, "sat", 0.0, K.model_values(m, ctx.inputs)))
+
+    def diversify(self, ctx, label, bad_e, state):
+        """The solver said sat but its (often degenerate) models did not survive float replay: ask it for models of the
+        same query with inputs pinned to small random values."""
+        import random
+        rng = random.Random(hash((self.name, label, "div")) & 0xFFFF)
+        for _ in range(6):
+            values = ctx.diverse_model(rng, bad_e)
+            if values is None:
+                return False
+            status, detail = self.replay(label, values)
+            if status in ("reproduced", "reproduced_other"):
+                state["violations"].append({
+                    "unit": self.name, "label": label, "values": jsonable(values), "detail": detail,
+                    "signature": self.signature(label, values, detail), "decisions": [t[0] for t in ctx.trace]})
+                if len(state["violations"]) >= self.max_violations:
+                    raise StopUnit()
+                return True
+        return False
 
     def hunt(self, ctx, label, state):
         """Bug hunting when the symbolic run could not follow the code (e.g. it raised inside an operation the
